@@ -2,6 +2,7 @@ import Uom.Model.Oracle
 import Uom.Model.Ops
 import Uom.Model.OpsOracle
 import Uom.Model.Text
+import Uom.Model.Duration
 import Std.Data.HashMap
 /-!
 # Line protocol: one harness case per line → model recomputation + oracle verdicts
@@ -338,6 +339,172 @@ def handleParseRt (tbl : TextTable) (vt module idx pows v back : String) : Optio
   let ok := ratAbs (b.toRat - v.toRat) ≤ 8 * u * (ratAbs v.toRat + k)
   return ⟨[if ok then .ok else .prop "parse.rt.oracle" "format-then-parse is more than 8u·(|v| + |offset|) away from the original stored value"], ["prt"], true⟩
 
+/-! ## C14 -/
+
+def piBits (f : Fmt) : Nat := if f.p == 53 then 0x400921fb54442d18 else 0x40490fdb
+
+def handleDurFl (f : Fmt) (vt base pows cs cn v obs : String) : Option LineResult := do
+  let fac := baseFactor (flS f) (← flList? f pows)
+  let cs ← flOf? f cs
+  let cn ← flOf? f cn
+  let v ← flOf? f v
+  let m := (durOfTimeFl f fac cs cn v).show
+  let mo : Outcome := if m == obs then .ok else .diff s!"dur.{vt}.model" s!"model={m} impl={obs}"
+  -- oracle on the observed result
+  let secondBase := Fl.cmp fac cs == some 0
+  let t : Rat := v.toRat * fac.toRat / cs.toRat          -- the time in seconds, exactly
+  let two64 : Rat := ((2 ^ 64 : Nat) : Rat)
+  let u := uro f
+  let orc : Outcome :=
+    if obs == "PANIC" then .prop "dur.panic" "Duration::try_from panicked"
+    else if v.isNan then (if obs == "overflow" then .ok else .prop "dur.class" "NaN must report Overflow")
+    else if Fl.lt v (Fl.zero f false) then (if obs == "neg" then .ok else .prop "dur.class" "a strictly negative time must report NegativeDuration")
+    else if obs == "neg" then .prop "dur.class" "NegativeDuration reported for a time that is not strictly negative"
+    else if !v.isFinite then (if obs == "overflow" then .ok else .prop "dur.class" "+inf must report Overflow")
+    else if t ≥ two64 * (1 + 4 * u) then (if obs == "overflow" then .ok else .prop "dur.class" "2^64 seconds or more must report Overflow")
+    else if obs == "overflow" then
+      (if t ≥ two64 * (1 - 4 * u) then .guard "within a few ulps of 2^64 s"
+       else if !secondBase && m == obs then .prop "dur.F4" "Overflow for a representable time stored in a non-second base unit"
+       else .prop "dur.class" "Overflow reported for a representable time")
+    else match obs.splitOn ":" with
+      | ["ok", s, n] => match s.toNat?, n.toNat? with
+        | some s, some n =>
+          let d : Rat := (s : Rat) + (n : Rat) / 1000000000
+          if ratAbs (d - t) ≤ 1 / 1000000000 + 4 * u * t then .ok
+          else if !secondBase && m == obs then
+            .prop "dur.F4" "time stored in a non-second base unit: Duration off by more than 1 ns + 4u (seconds and sub-second part are computed from differently rounded numbers)"
+          else .prop "dur.accuracy" "Duration is more than 1 ns + 4u away from the time's magnitude"
+        | _, _ => .prop "dur.class" "unreadable result"
+      | _ => .prop "dur.class" "unreadable result"
+  return ⟨[mo, orc], [s!"dur:{vt}:{base}", s!"dur:{(obs.splitOn ":").head!}"], true⟩
+
+def handleTimFl (f : Fmt) (vt base pows cs cn secs nanos obs : String) : Option LineResult := do
+  let fac := baseFactor (flS f) (← flList? f pows)
+  let cs ← flOf? f cs
+  let cn ← flOf? f cn
+  let s ← secs.toNat?
+  let n ← nanos.toNat?
+  let m := "ok:" ++ flHex f (timeOfDurFl f fac cs cn s n)
+  let mo : Outcome := if m == obs then .ok else .diff s!"tim.{vt}.model" s!"model={m} impl={obs}"
+  let orc : Outcome :=
+    if !obs.startsWith "ok:" then .prop "tim.class" "float storage can hold every Duration (possibly as infinity): no error expected"
+    else match flOf? f (obs.drop 3).toString with
+      | none => .prop "tim.class" "unreadable"
+      | some o =>
+        let d : Rat := (s : Rat) + (n : Rat) / 1000000000
+        if !o.isFinite then (if d * cs.toRat / fac.toRat > Fl.toRat (Fl.fin false (2 ^ f.p - 1) f.emax) / 2 then .guard "overflow/underflow" else .prop "tim.accuracy" "non-finite time")
+        else
+          let t := o.toRat * fac.toRat / cs.toRat
+          if ratAbs (t - d) ≤ 8 * uro f * d then .ok else .prop "tim.accuracy" "time is more than 8u away from seconds + nanoseconds"
+  return ⟨[mo, orc], [s!"tim:{vt}:{base}"], s != 0 || n != 0⟩
+
+/-- (bits, signed) of a fixed-width integer storage type; `none` for the arbitrary-precision ones -/
+def intInfo (vt : String) : Option (Nat × Bool) :=
+  match vt with
+  | "i32" => some (32, true) | "i64" => some (64, true) | "isize" => some (64, true)
+  | "u32" => some (32, false) | "u64" => some (64, false) | _ => none
+
+def intSmall (vt : String) (r : Rat) : Bool :=
+  match intInfo vt with | some (b, _) => ratSmall b r | none => true
+
+def intFits (vt : String) (x : Int) : Bool :=
+  match intInfo vt with
+  | some (b, true) => decide (-(2 ^ (b - 1) : Nat) ≤ x ∧ x < (2 ^ (b - 1) : Nat))
+  | some (b, false) => decide (0 ≤ x ∧ x < (2 ^ b : Nat))
+  | none => vt != "biguint" || decide (0 ≤ x)
+
+/-- integer storage: the model is exact arithmetic; fixed-width overflow is only *predicted* while every
+    intermediate is small, but "never panics" is judged always -/
+def handleDurInt (vt base pows cs cn v obs : String) : Option LineResult := do
+  if pows == "PANIC" then return ⟨[.prop "dur.panic" "computing the base factor panics"], [s!"dur:{vt}:{base}"], true⟩
+  let ps ← (pows.splitOn ":").mapM parseRat?
+  let fac := baseFactor ratS ps
+  let cs ← parseRat? cs
+  let cn ← parseRat? cn
+  let v ← parseInt? v
+  let m := durOfTimeInt fac cs cn v
+  let sm := intSmall vt
+  let small := sm fac && sm cs && sm cn && sm (v : Rat) && sm ((v : Rat) * fac / cs) && sm ((v : Rat) * 1000000000)
+  let mo : Outcome := if !small then .guard "fixed-width intermediate"
+    else if m.show == obs then .ok else .diff s!"dur.{vt}.model" s!"model={m.show} impl={obs}"
+  let orc : Outcome :=
+    if obs == "PANIC" then
+      (if m == .panic && ratTrunc (cs / fac) == 0 then
+        .prop "dur.F10" "integer storage with a time base unit longer than a second: new::<second>(1) truncates to zero and `time % 0` panics"
+       else if m == .panic then .prop "dur.F10" "integer storage: a conversion coefficient is published as zero and the conversion divides by it"
+       else if !small then .prop "dur.F11" "integer storage: an intermediate of the conversion overflows the fixed-width ratio and panics instead of reporting Overflow"
+       else .prop "dur.panic" "Duration::try_from panicked")
+    else if v < 0 then (if obs == "neg" then .ok else .prop "dur.class" "negative time must report NegativeDuration")
+    else if obs == "neg" then .prop "dur.class" "NegativeDuration for a non-negative time"
+    else .ok
+  return ⟨[mo, orc], [s!"dur:{vt}:{base}", s!"dur:{(obs.splitOn ":").head!}"], true⟩
+
+def handleTimInt (vt base pows cs cn secs nanos obs : String) : Option LineResult := do
+  if pows == "PANIC" then return ⟨[.prop "tim.panic" "computing the base factor panics"], [s!"tim:{vt}:{base}"], true⟩
+  let ps ← (pows.splitOn ":").mapM parseRat?
+  let fac := baseFactor ratS ps
+  let cs ← parseRat? cs
+  let cn ← parseRat? cn
+  let s ← secs.toNat?
+  let n ← nanos.toNat?
+  -- from_u64 / from_u32 fail when the count does not fit the storage type
+  let fits (x : Nat) : Bool := intFits vt (x : Int)
+  let exact : Int := ratTrunc ((s : Rat) * cs / fac) + ratTrunc ((n : Rat) * cn / fac)
+  let m : String := if !(fits s && fits n) then "overflow" else if intFits vt exact then s!"ok:{exact}" else "PANIC"
+  let sm := intSmall vt
+  let small := sm fac && sm cs && sm cn && sm (s : Rat) && sm (n : Rat) && sm ((s : Rat) * cs / fac) && sm ((n : Rat) * cn / fac)
+  let mo : Outcome := if !small then .guard "fixed-width intermediate"
+    else if m == obs then .ok else .diff s!"tim.{vt}.model" s!"model={m} impl={obs}"
+  let orc : Outcome :=
+    if obs == "PANIC" then
+      (if !small || !(intFits vt exact) then .prop "dur.F11" "integer storage: the count or an intermediate overflows and the conversion panics instead of reporting Overflow"
+       else .prop "tim.panic" "Time::try_from panicked")
+    else if !(fits s && fits n) then (if obs == "overflow" then .ok else .prop "tim.class" "a count the storage type cannot hold must report Overflow")
+    else .ok
+  return ⟨[mo, orc], [s!"tim:{vt}:{base}"], true⟩
+
+/-! ## C18 -/
+
+def handleForward (tag : String) (f : Fmt) (row : UnitRow) (x stored res raw : String) (key : String) : Option LineResult := do
+  let off := if f.p == 53 then 0 else 3
+  let coef ← flOf? f row.conv[off]!
+  let consA ← flOf? f row.conv[off + 1]!
+  let xv ← flOf? f x
+  -- angle and ratio are dimensionless: the base factor is `1` in every base-unit set
+  let m := flHex f (toBase (flS f) coef consA (Fl.one f) xv)
+  return ⟨[if m == stored then .ok else .diff s!"{tag}.stored.model" s!"model={m} impl={stored}",
+           if res == raw then .ok else .prop s!"{tag}.oracle" "result is not the storage type's function of the stored dimensionless magnitude"],
+          [key], true⟩
+
+def handleCst (tbl : TextTable) (vt name value module idx back : String) : Option LineResult := do
+  let f ← fmtOf? vt
+  let rows ← tbl.units.get? module
+  let row ← rows[idx.toNat?.getD 0]?
+  let off := if f.p == 53 then 0 else 3
+  let coef ← flOf? f row.conv[off]!
+  let consS ← flOf? f row.conv[off + 2]!
+  let v ← flOf? f value
+  let b ← flOf? f back
+  let pi := Fl.ofBits f (piBits f)
+  let k : Nat := if name == "HALF_TURN" then 1 else if name == "FULL_TURN" then 2 else 4
+  let want := Fl.mul f (Fl.ofNat f k) pi
+  let mBack := fromBase (flS f) coef consS (Fl.one f) v
+  -- the published constants are exact: half turn = 180° = π rad = ½ r, full turn = 1 r = 360°, sphere = 4π sr = 1 sp
+  let exactWant : Option Fl := match name, row.name with
+    | "HALF_TURN", "degree" => some (Fl.ofNat f 180)
+    | "HALF_TURN", "radian" => some pi
+    | "HALF_TURN", "revolution" => some (Fl.div f (Fl.one f) (Fl.ofNat f 2))
+    | "FULL_TURN", "revolution" => some (Fl.one f)
+    | "FULL_TURN", "degree" => some (Fl.ofNat f 360)
+    | "FULL_TURN", "radian" => some want
+    | "SPHERE", "steradian" => some want
+    | "SPHERE", "spat" => some (Fl.one f)
+    | _, _ => none
+  return ⟨[cmpFl f "cst.value.model" want v, cmpFl f "cst.get.model" mBack b,
+           match exactWant with
+           | some w => if Fl.toBits f w = Fl.toBits f b then .ok else .prop "cst.oracle" s!"{name} read in {row.name} is not exact"
+           | none => .ok], [s!"cst:{name}"], true⟩
+
 def handleLine (tbl : TextTable) (line : String) : Option LineResult :=
   match line.splitOn " " with
   | ["conv", vt, _base, _module, _unit, coef, consA, consS, pows, v, newObs, getObs, rtObs] => do
@@ -414,6 +581,32 @@ def handleLine (tbl : TextTable) (line : String) : Option LineResult :=
   | ["dbg", _vt, _base, module, bmods, bunits, out, rawdbg] => handleDbg tbl module (bmods.splitOn ",") (bunits.splitOn ",") out rawdbg
   | ["parse", vt, _base, module, pows, input, numpart, numparse, result] => handleParse tbl vt module pows input numpart numparse result
   | ["prt", vt, _base, module, idx, _style, pows, v, back] => handleParseRt tbl vt module idx pows v back
+  | ["dur", vt, base, pows, cs, cn, v, obs] =>
+    match fmtOf? vt with
+    | some f => handleDurFl f vt base pows cs cn v obs
+    | none => handleDurInt vt base pows cs cn v obs
+  | ["tim", vt, base, pows, cs, cn, secs, nanos, obs] =>
+    match fmtOf? vt with
+    | some f => handleTimFl f vt base pows cs cn secs nanos obs
+    | none => handleTimInt vt base pows cs cn secs nanos obs
+  | ["trig", vt, _base, fn, idx, x, stored, res, raw] => do
+    let f ← fmtOf? vt
+    let rows ← tbl.units.get? "angle"
+    let row ← rows[idx.toNat?.getD 0]?
+    handleForward "trig" f row x stored res raw s!"trig:{fn}"
+  | ["inv", vt, _base, fn, idx, x, stored, res, raw] => do
+    let f ← fmtOf? vt
+    let rows ← tbl.units.get? "ratio"
+    let row ← rows[idx.toNat?.getD 0]?
+    handleForward "inv" f row x stored res raw s!"inv:{fn}"
+  | ["at2", _vt, _base, _module, _a, _b, res, raw] =>
+    some ⟨[if res == raw then .ok else .prop "at2.oracle" "atan2 of two like quantities is not the storage type's atan2 of the stored values, in radians"], ["at2"], true⟩
+  | ["cst", vt, name, value, module, idx, back] => handleCst tbl vt name value module idx back
+  | ["ser", vt, _base, _module, fmt, qout, vout] =>
+    some ⟨[if qout == vout then .ok else .prop s!"ser.{fmt}.oracle" "a quantity does not serialize to what its stored value serializes to"], [s!"ser:{vt}:{fmt}"], true⟩
+  | ["de", vt, _base, _module, fmt, _input, qres, vres] =>
+    some ⟨[if qres == vres then .ok else .prop s!"de.{fmt}.oracle" "a quantity does not deserialize exactly as its storage type does (accepts/rejects/value)"],
+          [s!"de:{vt}:{fmt}", if qres == "err" then "de:rejected" else "de:accepted"], true⟩
   | ["b2", vt, form, _q, _u, a, b, qres, rawres] =>
     match numTy? vt with
     | some N => handleSame N vt form a b qres rawres
